@@ -105,7 +105,13 @@ int main(int argc, char** argv) {
     size_t p = err.find("AddressSanitizer: heap-use-after-free");
     if (p != std::string::npos) {
         std::string where;
-        size_t q = err.find("#0 ", p); if (q != std::string::npos) { size_t e = err.find('\n', q); where = err.substr(q, e - q); }
+        size_t q = err.find("objectcachev2.h:", p);      // first frame inside the class: the offending line of ~Borrow / operator=
+        if (q != std::string::npos) {
+            size_t ls = err.rfind('\n', q), le = err.find('\n', q);
+            std::string line = err.substr(ls + 1, le - ls - 1);
+            size_t in = line.find(" in ");
+            where = "at" + (in == std::string::npos ? " " + line : line.substr(in + 3));
+        }
         size_t r = err.find("READ of size", p); std::string rd; if (r != std::string::npos) { size_t e = err.find(" at", r); rd = err.substr(r, e - r); }
         bool freed_by_erase = err.find("__expire") != std::string::npos;
         printf("F16 %s confirmed: heap-use-after-free, %s, %s%s\n", mode, rd.c_str(), where.c_str(), freed_by_erase ? ", freed by ObjectCacheV2::__expire (map.erase)" : "");
